@@ -224,4 +224,82 @@ theorem del_del (L : List Str) (k1 k2 : List Str) :
   intro s _
   rw [segHit_append]; cases segHit k1 s <;> cases segHit k2 s <;> rfl
 
+
+/-! ### the `%variable` tokenizer is total -/
+
+theorem dropWhile_len (p : Char → Bool) (l : Str) : (l.dropWhile p).length ≤ l.length := by
+  induction l with
+  | nil => simp
+  | cons a as ih => simp only [List.dropWhile_cons]; split <;> simp <;> omega
+
+theorem split_flatten : ∀ (f : Nat) (s : Str), s.length ≤ f → (splitParam f s).flatten = s := by
+  intro f
+  induction f with
+  | zero => intro s h; cases s with
+    | nil => simp [splitParam]
+    | cons a as => simp at h
+  | succ f ih =>
+    intro s h
+    cases s with
+    | nil => simp [splitParam]
+    | cons c rest =>
+      by_cases hc : c = '%'
+      · subst hc
+        cases rest with
+        | nil => simp [splitParam]
+        | cons d r =>
+          by_cases hd : d = '%'
+          · subst hd
+            have hl : (r.dropWhile (· != '%')).length ≤ f := by
+              have := dropWhile_len (· != '%') r; simp at h; omega
+            simp only [splitParam, List.flatten_cons, ih _ hl]
+            simp [List.takeWhile_append_dropWhile]
+          · have hl : ((d :: r).dropWhile isVarChar).length ≤ f := by
+              have := dropWhile_len isVarChar (d :: r); simp at h this ⊢; omega
+            rw [splitParam]
+            · simp only [List.flatten_cons, ih _ hl]
+              simp [List.takeWhile_append_dropWhile]
+            · intro h1; exact hd h1
+      · have hl : (rest.dropWhile (· != '%')).length ≤ f := by
+          have := dropWhile_len (· != '%') rest; simp at h; omega
+        rw [splitParam]
+        · simp only [List.flatten_cons, ih _ hl]
+          simp [List.takeWhile_append_dropWhile]
+        · intro h1 _; exact hc h1
+        · intro _ h1 _; exact hc h1
+        · intro _ _ h1 _; exact hc h1
+
+theorem split_nonempty : ∀ (f : Nat) (s : Str), ∀ p ∈ splitParam f s, p ≠ [] := by
+  intro f
+  induction f with
+  | zero => intro s p hp; simp [splitParam] at hp
+  | succ f ih =>
+    intro s p hp
+    cases s with
+    | nil => simp [splitParam] at hp
+    | cons c rest =>
+      by_cases hc : c = '%'
+      · subst hc
+        cases rest with
+        | nil => simp [splitParam] at hp; simp [hp]
+        | cons d r =>
+          by_cases hd : d = '%'
+          · subst hd
+            simp only [splitParam] at hp
+            rcases List.mem_cons.mp hp with hp | hp
+            · simp [hp]
+            · exact ih _ p hp
+          · rw [splitParam] at hp
+            · rcases List.mem_cons.mp hp with hp | hp
+              · simp [hp]
+              · exact ih _ p hp
+            · intro h1; exact hd h1
+      · rw [splitParam] at hp
+        · rcases List.mem_cons.mp hp with hp | hp
+          · simp [hp]
+          · exact ih _ p hp
+        · intro h1 _; exact hc h1
+        · intro _ h1 _; exact hc h1
+        · intro _ _ h1 _; exact hc h1
+
 end BfeVerif.C49
